@@ -68,6 +68,15 @@ struct CaseStats {
   uint64_t sm_run[8][64] {}, sm_failed[8][64] {};
   // cases whose first refused request was made inside a constructor / was the first request of that constructor (by fault class)
   uint64_t ctor_cases[3] {}, ctor_cases_first_request[3] {};
+  // W5c (ConstPool model, continue recovery); armed cases only
+  // W1c / W2c (continue recovery for every kind of call)
+  uint64_t static_arena_cases = 0, static_arena_cases_grown = 0;   // armed cases on an arena that starts in static memory / that had heap blocks chained behind it when the body ended
+  uint64_t hugetlb_mmaps = 0;           // mmap(MAP_HUGETLB) requests seen (all runs of the process)
+  uint64_t first_report_after_the_refusing_call_returned = 0;   // cases judged by the 'who reports' oracle whose first report came from a later call
+  uint64_t reinit_compiler_rounds_after_failure = 0;   // W1r: functions generated with a Compiler after an armed reinit / init / attach round met a refused request
+  uint64_t vm_releases_checked = 0;     // munmap / close / unlink of something tracked, each checked for length / result / repetition
+  uint64_t cont_refused_by_kind[24] {}, cont_calls_after_refused = 0, cont_cases_with_refused_call = 0;
+  uint64_t cp_adds = 0, cp_refused = 0, cp_refused_with_padding_pending = 0, cp_refused_with_gaps_registered = 0, cp_adds_after_refused = 0, cp_retries_of_refused = 0, cp_checks = 0, cp_pool_resets = 0;
 };
 // Requests made while a constructor of an asmjit object is running (the workloads bracket constructor calls with CtorScope).
 // requests[]: failure-free phase-1 runs of this process (count mode); fired*: armed cases whose refused request was inside it.
@@ -101,12 +110,15 @@ struct FaultCtl {
   uint64_t pat[16]; int npat = 0;
   uint64_t seen[CL_N] {};
   uint64_t fired = 0;
+  uint64_t last_fired_seq = 0;   // g_call_seq when the most recent request was refused
+  bool fired_in_ctor = false;    // a request was refused inside a constructor (constructors report nothing: is_initialized())
   uintptr_t first_site[kSiteDepth] {};
   uint64_t cur_case = 0;
   void* twin_site = nullptr; int twin_left = 0;
   bool memfd_enosys = false;   // environment variation: pretend memfd_create() does not exist (old kernel)
 };
 static FaultCtl F;
+static uint64_t g_call_seq;    // (defined with Rec below)
 
 static uintptr_t g_stack_lo = 0, g_stack_hi = 0;
 static uintptr_t g_exe_base_early = 0;
@@ -197,6 +209,8 @@ static inline bool fault_point(int cls, void** fp, void* caller) {
       if (!F.fired) { ST.ctor_cases[cls]++; if (ctor_index == 0) ST.ctor_cases_first_request[cls]++; }
     }
     F.fired++;
+    F.last_fired_seq = g_call_seq;
+    if (g_ctor_name) F.fired_in_ctor = true;
     record_site(cls, pc, true, n);
   }
   return fail;
@@ -251,8 +265,45 @@ static int64_t g_map_live = 0, g_fd_live = 0, g_name_live = 0;
 static uint64_t g_vm_calls = 0;
 static int g_fds[256]; static int g_nfds = 0;
 
-static void fd_add(int fd) { if (g_nfds < 256) g_fds[g_nfds++] = fd; g_fd_live++; }
+// Release calls are checked, not only counted: a mapping must be released whole (same address, same length up to page
+// rounding, munmap() == 0), a descriptor / name that asmjit obtained must be released once. What a case did wrong is kept
+// here (first call chain + text) and reported by run_case() whether or not an error was reported.
+static char g_vm_defects[1024]; static size_t g_vm_defects_len = 0;   // (static storage: the wrappers allocate nothing)
+static uintptr_t g_vm_defect_site[kSiteDepth];
+static uint64_t g_vm_release_checks = 0;        // releases of something that is tracked (all of them are checked)
+static int g_closed_fds[64]; static int g_nclosed = 0;          // descriptors released in this case and not handed out again
+static char g_unlinked[8][96]; static int g_nunlinked = 0;      // names released in this case
+static char g_names[16][96]; static int g_nnames = 0;           // names created and not yet released
+static size_t g_page = 4096;
+static bool g_strip_hugetlb = false;
+
+static void vm_defect(const char* fmt, ...) {
+  char b[300]; va_list ap; va_start(ap, fmt); vsnprintf(b, sizeof b, fmt, ap); va_end(ap);
+  if (!g_vm_defects_len) walk_frames(nullptr, g_vm_defect_site);
+  if (g_vm_defects_len < 600) g_vm_defects_len += size_t(snprintf(g_vm_defects + g_vm_defects_len, sizeof g_vm_defects - g_vm_defects_len, "%s; ", b));
+}
+static void vm_case_begin() { g_nclosed = 0; g_nunlinked = 0; g_vm_defects_len = 0; g_vm_defects[0] = 0; memset(g_vm_defect_site, 0, sizeof g_vm_defect_site); }
+
+static void fd_add(int fd) {
+  if (g_nfds < 256) g_fds[g_nfds++] = fd;
+  g_fd_live++;
+  for (int i = 0; i < g_nclosed; i++) if (g_closed_fds[i] == fd) { g_closed_fds[i] = g_closed_fds[--g_nclosed]; break; }
+}
 static bool fd_del(int fd) { for (int i = 0; i < g_nfds; i++) if (g_fds[i] == fd) { g_fds[i] = g_fds[--g_nfds]; g_fd_live--; return true; } return false; }
+static void name_add(const char* n) {
+  if (g_nnames < 16) snprintf(g_names[g_nnames++], sizeof g_names[0], "%s", n);
+  for (int i = 0; i < g_nunlinked; i++) if (!strcmp(g_unlinked[i], n)) { memcpy(g_unlinked[i], g_unlinked[--g_nunlinked], sizeof g_unlinked[0]); break; }
+}
+static void name_release(const char* what, const char* n, int r) {
+  for (int i = 0; i < g_nnames; i++) if (!strncmp(g_names[i], n, sizeof g_names[0] - 1)) {
+    g_vm_release_checks++;
+    if (r != 0) { vm_defect("%s(\"%s\") of a name asmjit created failed with errno %d", what, n, errno); return; }
+    memcpy(g_names[i], g_names[--g_nnames], sizeof g_names[0]);
+    if (g_nunlinked < 8) snprintf(g_unlinked[g_nunlinked++], sizeof g_unlinked[0], "%s", n);
+    return;
+  }
+  for (int i = 0; i < g_nunlinked; i++) if (!strncmp(g_unlinked[i], n, sizeof g_unlinked[0] - 1)) { vm_defect("%s(\"%s\"): the name has already been released in this case (released twice)", what, n); return; }
+}
 
 extern "C" {
 void* __real_mmap(void*, size_t, int, int, int, off_t);
@@ -269,6 +320,12 @@ long __real_syscall(long, ...);
 __attribute__((noinline)) void* __wrap_mmap(void* a, size_t n, int prot, int flags, int fd, off_t off) {
   g_vm_calls++;
   if (FAULT(CL_VM)) { errno = ENOMEM; return MAP_FAILED; }
+  if (flags & MAP_HUGETLB) {
+    // large pages: the sandbox has no huge-page pool. "large" workloads get the mapping (same length, regular pages) so that
+    // the success path of the caller runs; everywhere else the real mmap() decides (it fails: the caller's fall-back path)
+    if (SH) SH->st.hugetlb_mmaps++;
+    if (g_strip_hugetlb) flags &= ~(MAP_HUGETLB | (0x3f << 26));
+  }
   void* p = __real_mmap(a, n, prot, flags, fd, off);
   if (p != MAP_FAILED) {
     for (auto& m : g_maps) if (!m.p) { m.p = p; m.n = n; break; }
@@ -277,8 +334,22 @@ __attribute__((noinline)) void* __wrap_mmap(void* a, size_t n, int prot, int fla
   return p;
 }
 __attribute__((noinline)) int __wrap_munmap(void* p, size_t n) {
-  for (auto& m : g_maps) if (m.p == p) { m.p = nullptr; g_map_live--; break; }
-  return __real_munmap(p, n);
+  auto up = [](size_t v) { return (v + g_page - 1) & ~(g_page - 1); };
+  MapEnt* hit = nullptr; MapEnt* inside = nullptr;
+  for (auto& m : g_maps) {
+    if (!m.p) continue;
+    if (m.p == p) { hit = &m; break; }
+    if (uintptr_t(p) > uintptr_t(m.p) && uintptr_t(p) < uintptr_t(m.p) + up(m.n)) inside = &m;
+  }
+  size_t mapped = hit ? hit->n : 0;
+  if (hit) { g_vm_release_checks++; hit->p = nullptr; g_map_live--; }
+  int r = __real_munmap(p, n);
+  int en = errno;
+  if (hit && (n == 0 || up(n) != up(mapped))) vm_defect("munmap(p, %zu) of a mapping that was made with mmap(%zu): %s", n, mapped, up(n) < up(mapped) ? "the rest of it stays mapped (leak)" : "unmaps memory behind it");
+  else if (hit && r != 0) vm_defect("munmap(p, %zu) of a tracked mapping failed with errno %d", n, en);
+  else if (!hit && inside && F.in_api) vm_defect("munmap(p, %zu) with p %zu bytes inside a mapping of %zu bytes: partial unmap", n, size_t(uintptr_t(p) - uintptr_t(inside->p)), inside->n);
+  errno = en;
+  return r;
 }
 __attribute__((noinline)) int __wrap_mprotect(void* p, size_t n, int prot) {
   g_vm_calls++;
@@ -294,12 +365,15 @@ __attribute__((noinline)) int __wrap_shm_open(const char* name, int fl, mode_t m
   g_vm_calls++;
   if (FAULT(CL_VM)) { errno = ENOMEM; return -1; }
   int fd = __real_shm_open(name, fl, mode);
-  if (fd >= 0) { fd_add(fd); g_name_live++; }
+  if (fd >= 0) { fd_add(fd); g_name_live++; name_add(name); }
   return fd;
 }
 __attribute__((noinline)) int __wrap_shm_unlink(const char* name) {
   int r = __real_shm_unlink(name);
+  int en = errno;
   if (r == 0) g_name_live--;
+  name_release("shm_unlink", name, r);
+  errno = en;
   return r;
 }
 __attribute__((noinline)) int __wrap_open64(const char* path, int fl, ...) {
@@ -308,17 +382,31 @@ __attribute__((noinline)) int __wrap_open64(const char* path, int fl, ...) {
   g_vm_calls++;
   if (FAULT(CL_VM)) { errno = ENOMEM; return -1; }
   int fd = __real_open64(path, fl, mode);
-  if (fd >= 0) { fd_add(fd); if (fl & O_CREAT) g_name_live++; }
+  if (fd >= 0) { fd_add(fd); if (fl & O_CREAT) { g_name_live++; name_add(path); } }
   return fd;
 }
 __attribute__((noinline)) int __wrap_unlink(const char* path) {
   int r = __real_unlink(path);
+  int en = errno;
   if (r == 0) g_name_live--;
+  name_release("unlink", path, r);
+  errno = en;
   return r;
 }
 __attribute__((noinline)) int __wrap_close(int fd) {
-  fd_del(fd);
-  return __real_close(fd);
+  bool tracked = fd_del(fd);
+  if (tracked) g_vm_release_checks++;
+  else if (F.in_api) {
+    for (int i = 0; i < g_nclosed; i++) if (g_closed_fds[i] == fd) { vm_defect("close(%d): the descriptor has already been closed in this case and was not handed out again (closed twice: would close somebody else's descriptor)", fd); break; }
+  }
+  int r = __real_close(fd);
+  int en = errno;
+  if (tracked) {
+    if (r != 0) vm_defect("close(%d) of a descriptor asmjit obtained failed with errno %d", fd, en);
+    if (g_nclosed < 64) g_closed_fds[g_nclosed++] = fd;
+  }
+  errno = en;
+  return r;
 }
 __attribute__((noinline)) long __wrap_syscall(long nr, ...) {
   va_list ap; va_start(ap, nr);
@@ -347,12 +435,24 @@ struct ApiScope { ApiScope() { F.in_api++; } ~ApiScope() { F.in_api--; } };
 // Recording what the API reported
 // =========================================================================================================
 
+// Sequence number of the API call in progress (advanced by every recorded call result): lets the harness tell whether the
+// first thing a caller was told came from the call that met the refused request or from a LATER call - the call in
+// progress "reports an error (or completes correctly)", it does not return kOk and leave the error to its successors.
 struct Rec {
   uint32_t calls = 0, errs = 0, handler = 0, nulls = 0;
   uint32_t first_err = 0; uint32_t first_err_call = 0;
   bool stop = false;     // "stop at first error" style (a caller that propagates); otherwise the caller carries on
-  bool rec(Error e) { calls++; if (e != Error::kOk) { if (!errs) { first_err = uint32_t(e); first_err_call = calls; } errs++; return true; } return false; }
-  void null_result() { nulls++; }
+  // the first event of the run: 0 = none; code of the first error returned / passed to the ErrorHandler (a null result counts as kOutOfMemory)
+  bool has_event = false, first_event_late = false; uint32_t first_event_code = 0; uint64_t first_event_calls_since_refusal = 0;
+  void event(Error e) {
+    if (has_event) return;
+    has_event = true; first_event_code = uint32_t(e);
+    // every refused request so far was made in an earlier call, and that call has returned
+    first_event_late = F.fired > 0 && F.last_fired_seq < g_call_seq && !F.fired_in_ctor;
+    first_event_calls_since_refusal = g_call_seq - F.last_fired_seq;
+  }
+  bool rec(Error e) { calls++; if (e != Error::kOk) { event(e); if (!errs) { first_err = uint32_t(e); first_err_call = calls; } errs++; g_call_seq++; return true; } g_call_seq++; return false; }
+  void null_result() { nulls++; event(Error::kOutOfMemory); g_call_seq++; }
   bool reported() const { return errs || handler || nulls; }
   bool stopped() const { return stop && reported(); }
 };
@@ -361,8 +461,10 @@ static bool g_debug = false;
 class CountingHandler : public ErrorHandler {
 public:
   Rec* R = nullptr;
+  Error last = Error::kOk;    // what the most recent invocation was told
   void handle_error(Error e, const char* msg, BaseEmitter*) override {
-    if (R) R->handler++;
+    if (R) { R->handler++; R->event(e); }
+    last = e;
     if (g_debug) fprintf(stderr, "@handler err=%u %s\n", unsigned(e), msg ? msg : "");
   }
 };
@@ -382,12 +484,19 @@ struct Result {
   // that call instead of the first refused request's call chain
   struct Defect { const char* kind; const char* api; std::string what; };
   std::vector<Defect> api_defects;
+  const char* ref_api = nullptr;   // continue-mode workloads that know the kind of the (first) refused call: names the violation key
   std::string image;  // hex of the last flattened image (diagnostics: lets the Python side compare two images structurally)
   void put(const char* tag, const void* p, size_t n) { main += tag; main += '='; main += hexstr(p, n); main += ';'; }
   void num(const char* tag, uint64_t v) { char b[64]; snprintf(b, sizeof b, "%s=%llu;", tag, (ull)v); main += b; }
 };
 
 struct Params { uint64_t seed = 1; };
+
+static void note_static_arena(Arena& a) {
+  if (F.mode == M_COUNT || !F.counting || !a.has_static_block()) return;
+  ST.static_arena_cases++;
+  if (a.statistics().block_count() >= 2) ST.static_arena_cases_grown++;
+}
 
 static int recover_holder(CodeHolder& code, int strategy, Rec& R) {
   if (strategy == 1 && code.is_initialized()) {
@@ -534,10 +643,16 @@ struct W5 : Workload {
         R.rec(e); CHK();
         if (e == Error::kOk) { Added a; memcpy(a.data, src, sz); a.size = sz; a.off = off; added.push_back(a); char b[40]; snprintf(b, sizeof b, "c%u@%zu;", i, off); out.aux += b; }
       }
-      std::string img(cp.size() + 8, '\xEE');
+      std::string img(cp.size() + 264, '\xEE');
       cp.fill(&img[0]);
       uint32_t bad = 0;
       for (auto& a : added) if (a.off % a.size != 0 || a.off + a.size > cp.size() || memcmp(img.data() + a.off, a.data, a.size) != 0) bad++;
+      for (size_t g = 0; g < 264; g++) if (uint8_t(img[cp.size() + g]) != 0xEE) { bad++; break; }
+      // (whether or not an add() reported an error: the caller went on with the same pool, what add() accepted must be in it)
+      if (bad) {
+        char b[160]; snprintf(b, sizeof b, "W5: %u of %zu constants that add() accepted are misaligned / outside [0, size()=%zu) / not reproduced by fill()", bad, added.size(), cp.size());
+        out.api_defects.push_back(Result::Defect{"constpool-inconsistent", "ConstPool::add", b});
+      }
       out.num("cpool_added", added.size()); out.num("cpool_bad", bad); out.num("cpalign", cp.alignment());
       out.aux += "cpool=" + hexstr(img.data(), cp.size()) + ";";
     }
@@ -568,12 +683,145 @@ struct W5 : Workload {
   }
 };
 
-// W5s - Arena reuse after a soft reset: retained blocks that are too small for the next request are skipped.
-struct W5s : Workload {
+// W5c - ConstPool against a model, "continue" recovery: a caller whose add() was refused goes on with the SAME pool (adds
+// other constants, or the refused one again) without resetting it. Whatever add() accepted - before or after the refused
+// call - must then lie inside [0, size()), be aligned to its size, and be reproduced by fill(), which must not write
+// behind size(); alignment() must cover the largest accepted constant. Judged whether or not an error was reported.
+// Sizes are mixed on purpose (1..64, small before big): most adds meet alignment padding and reusable gaps.
+struct W5c : Workload {
   std::optional<Arena> arena;
-  void construct() override { arena.emplace(1024); }
+  std::optional<ConstPool> cpool;
+  size_t block_size;
+  struct Item { uint8_t data[64]; size_t size, off; };
+  std::vector<Item> items;          // what add() accepted since the pool was last reset
+  Rec* R = nullptr; Result* out = nullptr;
+  bool stats = false;
+  explicit W5c(size_t bs) : block_size(bs) {}
+
+  void construct() override { arena.emplace(block_size); cpool.emplace(*arena); items.clear(); }
+
+  void defect(const char* kind, const std::string& what) {
+    for (auto& x : out->api_defects) if (!strcmp(x.kind, kind)) { if (x.what.size() < 400) x.what += what + "; "; return; }
+    out->api_defects.push_back(Result::Defect{kind, "ConstPool::add", what + "; "});
+  }
+
+  void check(const char* when, uint32_t step, bool after_failure) {
+    bool c = F.counting; F.counting = false;
+    ConstPool& cp = *cpool;
+    if (stats) ST.cp_checks++;
+    size_t sz = cp.size(), largest = 0;
+    constexpr size_t kGuard = 320;
+    std::vector<uint8_t> img(sz + kGuard, uint8_t(0xCC));
+    cp.fill(img.data());
+    const char* kind = after_failure ? "constpool-inconsistent-after-refused-add" : "constpool-inconsistent";
+    char b[240];
+    for (size_t g = 0; g < kGuard; g++) if (img[sz + g] != 0xCC) { snprintf(b, sizeof b, "%s (step %u): fill() wrote %zu bytes behind size()=%zu", when, step, g + 1, sz); defect(kind, b); break; }
+    uint32_t reported = 0;
+    for (const Item& it : items) {
+      largest = std::max(largest, it.size);
+      const char* what = nullptr;
+      if (it.off % it.size) what = "is not aligned to its size";
+      else if (it.off + it.size > sz) what = "lies outside [0, size())";
+      else if (memcmp(img.data() + it.off, it.data, it.size) != 0) what = "is not reproduced by fill() at the offset add() returned (another constant overlaps it)";
+      if (what && reported++ < 2) { snprintf(b, sizeof b, "%s (step %u): the %zu-byte constant at offset %zu %s, size()=%zu", when, step, it.size, it.off, what, sz); defect(kind, b); }
+    }
+    if (largest && (cp.alignment() < largest || (cp.alignment() & (cp.alignment() - 1)))) { snprintf(b, sizeof b, "%s (step %u): alignment()=%zu with an accepted %zu-byte constant", when, step, cp.alignment(), largest); defect(kind, b); }
+    F.counting = c;
+  }
+
+  static void make_const(uint8_t* dst, uint32_t v, size_t sz, uint32_t part) {
+    // 64-byte pattern per value v (every 4-byte group distinct within and across patterns); a constant is an aligned part of
+    // it, so that equal constants, and constants that are halves / quarters of a bigger one (shared nodes), occur
+    uint8_t pat[64];
+    for (size_t j = 0; j < 64; j++) pat[j] = uint8_t(v * 37u + uint32_t(j / 4u) * 5u + uint32_t(j % 4u) * 61u + (j & 1u ? v : 0u));
+    size_t o = (size_t(part) * sz) % 64u;
+    memcpy(dst, pat + o, sz);
+  }
+
+  // returns false when the caller stops
+  bool add(const uint8_t* d, size_t sz, uint32_t step, bool is_retry, bool& ok) {
+    ConstPool& cp = *cpool;
+    bool faults_on = F.counting;
+    size_t before = cp.size();
+    size_t off = ~size_t(0);
+    Error e = cp.add(d, sz, Out(off));
+    ok = e == Error::kOk;
+    if (stats) { ST.cp_adds++; if (is_retry) ST.cp_retries_of_refused++; if (failed_epoch) ST.cp_adds_after_refused++; }
+    if (ok) {
+      R->calls++;
+      Item it; memcpy(it.data, d, sz); it.size = sz; it.off = off; items.push_back(it);
+      if (failed_epoch) check("an add() that followed the refused one", step, true);
+      return true;
+    }
+    R->rec(e);
+    if (stats) { ST.cp_refused++; if (before % sz) ST.cp_refused_with_padding_pending++; if (cp._gap_pool || [&] { for (auto* g : cp._gaps) if (g) return true; return false; }()) ST.cp_refused_with_gaps_registered++; }
+    if (!faults_on && F.mode != M_COUNT) defect("error-with-memory-available", "add() returned error " + std::to_string(unsigned(e)) + " although no request can be refused");
+    failed_epoch = true;
+    check("right after the refused add()", step, true);
+    return !R->stopped();
+  }
+  bool failed_epoch = false;
+
+  void body(Rec& R_, Result& out_) override {
+    R = &R_; out = &out_; stats = F.mode != M_COUNT;
+    ConstPool& cp = *cpool;
+    Rng r(P.seed * 9176 + 77);
+    uint32_t n = 70 + uint32_t(r.below(30));
+    uint32_t accepted = 0;
+    failed_epoch = false;
+    static const uint8_t small_then_big[] = { 0, 3, 1, 4, 2, 5, 0, 6, 2, 4, 5, 6, 3, 3, 1, 5 };   // log2 of the size
+    for (uint32_t epoch = 0; epoch < 2; epoch++) {
+      for (uint32_t i = 0; i < n; i++) {
+        uint32_t lg = r.chance(1, 2) ? small_then_big[(i + epoch * 5) % sizeof small_then_big] : uint32_t(r.below(7));
+        size_t sz = size_t(1) << lg;
+        uint8_t d[64];
+        make_const(d, uint32_t(r.below(14)), sz, uint32_t(r.below(8)));
+        bool ok = false;
+        uint32_t step = epoch * 1000 + i;
+        if (!add(d, sz, step, false, ok)) return;
+        if (ok) { accepted++; continue; }
+        if (!F.counting) continue;
+        // the caller carries on with the same pool: case RNG-free choice by position so that both phases make the same calls
+        Rng c(P.seed * 31 + step * 7 + F.k);
+        switch (c.below(4)) {
+          case 0: break;                                                                    // gives the constant up
+          case 1: if (!add(d, sz, step, true, ok)) return; accepted += ok; break;           // the same constant again
+          case 2: {                                                                         // constants that fit the padding, then again
+            for (size_t s2 = 1; s2 < sz && s2 <= 32; s2 <<= 1) { uint8_t e2[64]; make_const(e2, 40u + uint32_t(s2) + i, s2, i); bool ok2; if (!add(e2, s2, step, false, ok2)) return; accepted += ok2; }
+            if (!add(d, sz, step, true, ok)) return; accepted += ok;
+            break;
+          }
+          default: {                                                                        // again, then two of the padding's size
+            if (!add(d, sz, step, true, ok)) return; accepted += ok;
+            for (uint32_t q = 0; q < 2 && sz > 1; q++) { uint8_t e2[64]; make_const(e2, 90u + q + i, sz / 2, q); bool ok2; if (!add(e2, sz / 2, step, false, ok2)) return; accepted += ok2; }
+            break;
+          }
+        }
+      }
+      check("end of the epoch", epoch, failed_epoch);
+      char b[64]; snprintf(b, sizeof b, "e%u:size=%zu,align=%zu;", epoch, cp.size(), cp.alignment()); out->aux += b;
+      for (const Item& it : items) { snprintf(b, sizeof b, "%zu@%zu,", it.size, it.off); out->aux += b; }
+      out->num("accepted", accepted);
+      if (epoch == 0) { cp.reset(); items.clear(); failed_epoch = false; if (stats) ST.cp_pool_resets++; }   // the pool object is reused, the arena keeps what it has
+    }
+  }
+
+  int recover(int strategy, Rec&) override {
+    cpool->reset(); items.clear(); failed_epoch = false;
+    if (strategy != 1) arena->reset(strategy == 0 ? ResetPolicy::kSoft : ResetPolicy::kHard);
+    return 0;
+  }
+  void destroy() override { cpool.reset(); arena.reset(); items.clear(); }
+};
+
+// W5s - Arena reuse after a soft reset: retained blocks that are too small for the next request are skipped.
+template<int TMP>
+struct W5sT : Workload {
+  std::optional<Arena> arena;
+  std::optional<ArenaTmp<512>> tmp;      // TMP: the arena starts in an embedded 512-byte block that is never freed
+  void construct() override { if (TMP) tmp.emplace(1024); else arena.emplace(1024); }
   void body(Rec& R, Result& out) override {
-    Arena& A = *arena;
+    Arena& A = TMP ? static_cast<Arena&>(*tmp) : *arena;
     uint64_t sum = 0;
     for (int round = 0; round < 3; round++) {
       // several blocks of growing size
@@ -592,13 +840,15 @@ struct W5s : Workload {
       if (!q) { R.null_result(); CHK(); } else { memset(q, 1, 512); sum += q[1]; }
       st = A.statistics();
       sum += st.block_count() >= 1 ? 100 : 0;
+      if (round == 2) note_static_arena(A);
       A.reset(round == 1 ? ResetPolicy::kHard : ResetPolicy::kSoft);
     }
     out.num("sum", sum);
   }
-  int recover(int strategy, Rec&) override { arena->reset(strategy == 2 ? ResetPolicy::kHard : ResetPolicy::kSoft); return 0; }
-  void destroy() override { arena.reset(); }
+  int recover(int strategy, Rec&) override { (TMP ? static_cast<Arena&>(*tmp) : *arena).reset(strategy == 2 ? ResetPolicy::kHard : ResetPolicy::kSoft); return 0; }
+  void destroy() override { arena.reset(); tmp.reset(); }
 };
+typedef W5sT<0> W5s;
 
 // =========================================================================================================
 // W6 - String and logger / formatter
@@ -977,8 +1227,19 @@ struct W1r : Workload {
   std::optional<CodeHolder> code;
   std::optional<x86::Assembler> as;
   std::optional<x86::Builder> cb;
+  std::optional<x86::Compiler> cc;
   CountingHandler eh;
-  void construct() override { code.emplace(); as.emplace(); cb.emplace(); }
+  // static_size != 0: the holder's arena starts in caller-provided memory (the first heap block is chained behind it; a hard
+  // reset must keep the static block and free the rest - also after a request for that heap block was refused)
+  size_t static_size = 0;
+  alignas(64) uint8_t static_mem[2048];
+  explicit W1r(size_t st = 0) : static_size(st) {}
+  void construct() override {
+    if (static_size) { CtorScope cs("CodeHolder(static memory)"); code.emplace(Span<uint8_t>(static_mem, static_size)); } else code.emplace();
+    as.emplace(); cb.emplace(); cc.emplace();
+  }
+  // a function with virtual registers (the RA pass that on_attach / on_reinit registers must really run)
+  void small_func(x86::Compiler& c, Rec& R, uint32_t round);
   template<typename EM> void small(EM& e, CodeHolder& C, Rec& R, uint32_t round) {
     Section* s = nullptr;
     E(C.new_section(Out(s), ".d", SIZE_MAX, SectionFlags::kNone, 8, int32_t(round & 1) * 2 - 1));
@@ -1002,11 +1263,12 @@ struct W1r : Workload {
     // A caller that reuses its objects in a loop: an iteration that reported an error is abandoned, the loop goes on.
     Rec R0 = R;
     auto failed_since = [&](const Rec& before) { return R.errs != before.errs || R.handler != before.handler || R.nulls != before.nulls; };
-    for (uint32_t round = 0; round <= 9; round++) {
+    for (uint32_t round = 0; round <= 15; round++) {
       if (R.stopped()) return;
       Rec before = R;
       bool use_builder = (round >= 5 && round <= 7);
-      BaseEmitter* em = use_builder ? static_cast<BaseEmitter*>(&*cb) : static_cast<BaseEmitter*>(&*as);
+      bool use_compiler = round >= 10;      // reinit / reset + init + attach with a Compiler (its passes are registered again each time)
+      BaseEmitter* em = use_compiler ? static_cast<BaseEmitter*>(&*cc) : use_builder ? static_cast<BaseEmitter*>(&*cb) : static_cast<BaseEmitter*>(&*as);
       // how this iteration gets a clean holder: reinit (even rounds, if possible), soft reset + init, hard reset + init
       if (C.is_initialized() && (round % 3) != 2 && em->code() == &C) R.rec(C.reinit());
       else {
@@ -1017,9 +1279,11 @@ struct W1r : Workload {
         R.rec(C.attach(em));
       }
       if (failed_since(before)) continue;
-      if (use_builder) small(*cb, C, R, round); else small(*as, C, R, round);
+      if (use_compiler) { small_func(*cc, R, round); if (!failed_since(before) && F.mode != M_COUNT && F.fired) ST.reinit_compiler_rounds_after_failure++; }
+      else if (use_builder) small(*cb, C, R, round); else small(*as, C, R, round);
       if (failed_since(before)) continue;
       if (use_builder) { R.rec(cb->finalize()); if (failed_since(before)) continue; }
+      if (use_compiler) { R.rec(cc->finalize()); if (failed_since(before)) continue; }
       {
         Rec saved = R; R.errs = R.handler = R.nulls = 0;    // finish_image() gates on errors of THIS iteration only
         image(C, R, out);
@@ -1027,14 +1291,30 @@ struct W1r : Workload {
       }
     }
     (void)R0;
+    note_static_arena(C.arena());
   }
   int recover(int strategy, Rec& R) override {
     (void)R;
     code->reset(strategy == 2 ? ResetPolicy::kHard : ResetPolicy::kSoft);   // (the body itself exercises reinit)
     return 0;
   }
-  void destroy() override { cb.reset(); as.reset(); code.reset(); }
+  void destroy() override { cc.reset(); cb.reset(); as.reset(); code.reset(); }
 };
+void W1r::small_func(x86::Compiler& c, Rec& R, uint32_t round) {
+  FuncNode* fn = c.add_func(FuncSignature::build<int, int, int>());
+  if (!fn) { R.null_result(); return; }
+  x86::Gp a = c.new_gp32("a"), b = c.new_gp32("b");
+  if (!a.is_valid() || !b.is_valid()) { R.null_result(); return; }
+  fn->set_arg(0, a); fn->set_arg(1, b);
+  std::vector<x86::Gp> v;
+  // (as many values as fit into registers: a spill slot whose creation fails is created later - different, correct code)
+  for (uint32_t i = 0; i < 10; i++) { x86::Gp g = c.new_gp32("v%u", i); if (!g.is_valid()) { R.null_result(); return; } v.push_back(g); E(c.mov(g, int(i + round * 100))); }
+  for (auto& g : v) E(c.add(a, g));
+  E(c.imul(a, b));
+  E(c.ret(a));
+  E(c.end_func());
+}
+
 
 // =========================================================================================================
 // W3 - Compiler: spills, invokes, annotated jump tables, constant pools, stack slots
@@ -1042,6 +1322,7 @@ struct W1r : Workload {
 
 static int callee10(int a, int b, int c, int d, int e, int f, int g, int h, int i, int j) { return a + b * 2 + c * 3 + d + e + f + g + h + i + j; }
 static double callee_d(double a, int b, double c) { return a * b + c; }
+static int64_t callee_q(int64_t a, uint8_t b, int16_t c, int64_t d, int e, int f, int64_t g, int64_t h) { return a + b + c + d + e + f + g + h; }
 
 template<typename RegT> static bool okreg(const RegT& r, Rec& R) { if (!r.is_valid()) { R.null_result(); return false; } return true; }
 
@@ -1208,6 +1489,121 @@ static void x86_functions(x86::Compiler& cc, Rec& R, Labels& L, bool is64, uint6
       E(cc.end_func());
     }
   }
+  // ---- f5: invoke arguments that are immediates: the RA pass creates a register for one that is passed in a register and
+  //      stores one that is passed on the stack (x86-32: all of them; 64-bit values in two halves) ---------------------------
+  {
+    FuncNode* fn = cc.add_func(FuncSignature::build<int, int>());
+    if (!fn) { R.null_result(); CHK(); }
+    else {
+      L.add("f5", fn->label());
+      x86::Gp a = cc.new_gp32("a"), res = cc.new_gp32("res");
+      if (okreg(a, R) && okreg(res, R)) {
+        fn->set_arg(0, a);
+        InvokeNode* inv = nullptr;
+        Error e = cc.invoke(Out(inv), imm((void*)callee10), FuncSignature::build<int, int, int, int, int, int, int, int, int, int, int>());
+        R.rec(e); CHK();
+        if (e == Error::kOk && inv) {
+          inv->set_arg(0, a); inv->set_arg(1, imm(0x11)); inv->set_arg(2, a); inv->set_arg(3, imm(-7)); inv->set_arg(4, imm(0x7FFFFFFF));
+          inv->set_arg(5, a); inv->set_arg(6, imm(0x66)); inv->set_arg(7, a); inv->set_arg(8, imm(int32_t(seed & 0xFF) + 1)); inv->set_arg(9, imm(-1));
+          inv->set_ret(0, res);
+        }
+        if (is64) {
+          x86::Gp r64 = cc.new_gp64("r64");
+          if (okreg(r64, R)) {
+            InvokeNode* inv2 = nullptr;
+            e = cc.invoke(Out(inv2), imm((void*)callee_q), FuncSignature::build<int64_t, int64_t, uint8_t, int16_t, int64_t, int, int, int64_t, int64_t>());
+            R.rec(e); CHK();
+            if (e == Error::kOk && inv2) {
+              inv2->set_arg(0, imm(0x1122334455667788ll)); inv2->set_arg(1, imm(0x1FF)); inv2->set_arg(2, imm(-2)); inv2->set_arg(3, imm(0x12345678));
+              inv2->set_arg(4, a); inv2->set_arg(5, imm(5)); inv2->set_arg(6, imm(0x1122334455667788ll)); inv2->set_arg(7, imm(-9));
+              inv2->set_ret(0, r64);
+            }
+            E(cc.add(res, r64.r32()));
+          }
+        }
+        E(cc.add(res, a));
+        E(cc.ret(res));
+      }
+      E(cc.end_func());
+    }
+  }
+  // ---- f6: floating point returned by the function itself (x86-32: through st0, which needs temporary memory) ---------------
+  {
+    FuncNode* fn = cc.add_func(FuncSignature::build<double, int, float>());
+    if (!fn) { R.null_result(); CHK(); }
+    else {
+      L.add("f6", fn->label());
+      x86::Gp a = cc.new_gp32("a"); x86::Vec d = cc.new_xmm_sd("d"), f = cc.new_xmm_ss("f");
+      if (okreg(a, R) && okreg(d, R) && okreg(f, R)) {
+        fn->set_arg(0, a); fn->set_arg(1, f);
+        Label other = cc.new_label();
+        if (!other.is_valid()) { R.null_result(); CHK(); }
+        else {
+          E(cc.cvtsi2sd(d, a));
+          E(cc.test(a, a)); E(cc.jz(other));
+          E(cc.addsd(d, d));
+          E(cc.ret(d));
+          E(cc.bind(other));
+          E(cc.cvtss2sd(d, f));
+          E(cc.ret(d));
+        }
+      }
+      E(cc.end_func());
+    }
+    FuncNode* fn2 = cc.add_func(FuncSignature::build<float, int>());
+    if (!fn2) { R.null_result(); CHK(); }
+    else {
+      L.add("f6f", fn2->label());
+      x86::Gp a = cc.new_gp32("a"); x86::Vec f = cc.new_xmm_ss("f");
+      if (okreg(a, R) && okreg(f, R)) { fn2->set_arg(0, a); E(cc.cvtsi2ss(f, a)); E(cc.ret(f)); }
+      E(cc.end_func());
+    }
+  }
+  if (is64) {
+    // ---- f7: vector arguments that the calling convention passes by reference (Win64): the RA pass spills them to the call
+    //      stack and creates a pointer register; immediates for the register and stack arguments next to them ----------------
+    {
+      FuncNode* fn = cc.add_func(FuncSignature::build<int, int>());
+      if (!fn) { R.null_result(); CHK(); }
+      else {
+        L.add("f7", fn->label());
+        x86::Gp a = cc.new_gp32("a"); x86::Vec v0 = cc.new_xmm("v0"), v1 = cc.new_xmm("v1"), v2 = cc.new_xmm("v2");
+        if (okreg(a, R) && okreg(v0, R) && okreg(v1, R) && okreg(v2, R)) {
+          fn->set_arg(0, a);
+          E(cc.movd(v0, a)); E(cc.pshufd(v1, v0, 0)); E(cc.movdqa(v2, v1)); E(cc.paddd(v2, v0));
+          InvokeNode* inv = nullptr;
+          Error e = cc.invoke(Out(inv), imm((void*)callee10), FuncSignature::build<int, Type::Vec128, int, Type::Vec128, int, int, int>(CallConvId::kX64Windows));
+          R.rec(e); CHK();
+          // (a by-reference vector argument that travels on the stack - index >= 4 - is refused with kInvalidAssignment: not used)
+          if (e == Error::kOk && inv) { inv->set_arg(0, v0); inv->set_arg(1, a); inv->set_arg(2, v1); inv->set_arg(3, imm(3)); inv->set_arg(4, imm(4)); inv->set_arg(5, imm(77)); inv->set_ret(0, a); }
+          E(cc.paddd(v0, v2)); E(cc.movd(v1, a)); E(cc.paddd(v0, v1)); E(cc.movd(a, v0));
+          E(cc.ret(a));
+        }
+        E(cc.end_func());
+      }
+    }
+    // ---- f8: an instruction that needs consecutive registers (k, k+1) -> the bin packer's consecutive-register lists ----
+    {
+      FuncNode* fn = cc.add_func(FuncSignature::build<int, int>());
+      if (!fn) { R.null_result(); CHK(); }
+      else {
+        L.add("f8", fn->label());
+        x86::Gp a = cc.new_gp32("a"), b = cc.new_gp32("b");
+        x86::KReg ka = cc.new_kw("ka"), kb = cc.new_kw("kb"), kc = cc.new_kw("kc"), kd = cc.new_kw("kd");
+        x86::Vec z0 = cc.new_zmm("z0"), z1 = cc.new_zmm("z1");
+        if (okreg(a, R) && okreg(b, R) && okreg(ka, R) && okreg(kb, R) && okreg(kc, R) && okreg(kd, R) && okreg(z0, R) && okreg(z1, R)) {
+          fn->set_arg(0, a);
+          E(cc.vpbroadcastd(z0, a)); E(cc.vpternlogd(z1, z1, z1, 0xFF));
+          E(cc.vp2intersectd(ka, kb, z0, z1));
+          E(cc.vpaddd(z1, z1, z0));
+          E(cc.vp2intersectd(kc, kd, z1, z0));
+          E(cc.kmovw(a, ka)); E(cc.kmovw(b, kb)); E(cc.add(a, b)); E(cc.kmovw(b, kc)); E(cc.add(a, b)); E(cc.kmovw(b, kd)); E(cc.add(a, b));
+          E(cc.ret(a));
+        }
+        E(cc.end_func());
+      }
+    }
+  }
 }
 
 static void a64_functions(a64::Compiler& cc, Rec& R, Labels& L, uint64_t seed) {
@@ -1323,6 +1719,41 @@ static void a64_functions(a64::Compiler& cc, Rec& R, Labels& L, uint64_t seed) {
         E(cc.bind(tab));
         for (auto& c : cs) E(cc.embed_label_delta(c, tab, 4));
       }
+    }
+  }
+  // ---- g4: invoke arguments that are immediates (register and stack), register lists (ld2 / st2 / tbl need consecutive
+  //      vector registers -> the bin packer's consecutive-register lists) ---------------------------------------------------
+  {
+    FuncNode* fn = cc.add_func(FuncSignature::build<int, int*, int>());
+    if (!fn) { R.null_result(); CHK(); }
+    else {
+      L.add("g4", fn->label());
+      a64::Gp p = cc.new_gp_ptr("p"), a = cc.new_gp32("a"), f = cc.new_gp_ptr("fn"), res = cc.new_gp32("res");
+      if (okreg(p, R) && okreg(a, R) && okreg(f, R) && okreg(res, R)) {
+        fn->set_arg(0, p); fn->set_arg(1, a);
+        E(cc.mov(f, uint64_t(0x0000123456789ABCull)));
+        InvokeNode* inv = nullptr;
+        Error e = cc.invoke(Out(inv), f, FuncSignature::build<int, int, int64_t, int, int8_t, int, uint16_t, int, int, int, int64_t>());
+        R.rec(e); CHK();
+        if (e == Error::kOk && inv) {
+          inv->set_arg(0, a); inv->set_arg(1, imm(0x1122334455667788ll)); inv->set_arg(2, imm(-7)); inv->set_arg(3, imm(0x1FF)); inv->set_arg(4, a);
+          inv->set_arg(5, imm(0x12345)); inv->set_arg(6, imm(6)); inv->set_arg(7, a); inv->set_arg(8, imm(int32_t(seed & 0xFF) + 1)); inv->set_arg(9, imm(0x0102030405060708ll));
+          inv->set_ret(0, res);
+        }
+        a64::Vec v0 = cc.new_vec_q("l0"), v1 = cc.new_vec_q("l1"), t0 = cc.new_vec_q("t0"), t1 = cc.new_vec_q("t1"), t2 = cc.new_vec_q("t2"), idx = cc.new_vec_q("idx"), o = cc.new_vec_q("o");
+        if (okreg(v0, R) && okreg(v1, R) && okreg(t0, R) && okreg(t1, R) && okreg(t2, R) && okreg(idx, R) && okreg(o, R)) {
+          E(cc.ld2(v0.s4(), v1.s4(), a64::ptr(p)));
+          E(cc.add(v0.s4(), v0.s4(), v1.s4()));
+          E(cc.st2(v1.s4(), v0.s4(), a64::ptr(p)));                 // the pair the other way round
+          E(cc.mov(t0.b16(), v0.b16())); E(cc.mov(t1.b16(), v1.b16())); E(cc.add(t2.s4(), t0.s4(), t1.s4()));
+          E(cc.movi(idx.b16(), 3));
+          E(cc.tbl(o.b16(), t0.b16(), t1.b16(), t2.b16(), idx.b16()));
+          E(cc.mov(a, o.s(0)));
+          E(cc.add(res, res, a));
+        }
+        E(cc.ret(res));
+      }
+      E(cc.end_func());
     }
   }
 }
@@ -1657,6 +2088,348 @@ struct W7 : Workload {
 
   int recover(int strategy, Rec& R) override { logger->clear(); return recover_holder(*code, strategy, R); }
   void destroy() override { as.reset(); cb.reset(); cc.reset(); code.reset(); logger.reset(); }
+};
+
+// =========================================================================================================
+// W1c / W2c - "continue" recovery for every kind of call of an assembling caller (not only instruction emits, W7):
+//      a call that is refused with kOutOfMemory (new_section, new_label, new_named_label, bind, section, align, embed,
+//      embed_label, embed_label_delta, embed_data_array, comment, an emit with a label / absolute-address operand) is
+//      dropped by the caller, which carries on with the SAME holder and emitter; what depended on a label / section that
+//      was never created is dropped with it. Phase-1 output (image, label offsets, section layout - or the error
+//      flatten / resolve / relocate / copy return) must equal a failure-free run on fresh objects that omits exactly
+//      those calls. A refused new_named_label is looked up by name (must not resolve to an id the holder does not have)
+//      and made again (own call). Composite calls (embed_const_pool = align + bind + embed) may legitimately stop half-way:
+//      their refusal counts as "reported" (no comparison).
+// =========================================================================================================
+
+enum { CK_NEW_SECTION = 0, CK_NEW_LABEL, CK_NEW_NAMED_LABEL, CK_RETRY_NAMED_LABEL, CK_BIND, CK_SECTION, CK_ALIGN, CK_EMBED, CK_EMBED_LABEL, CK_EMBED_LABEL_DELTA,
+       CK_EMBED_DATA_ARRAY, CK_COMMENT, CK_EMIT, CK_EMIT_LABEL_REF, CK_EMIT_ABS_TARGET, CK_CC_NEW_REG, CK_CC_NEW_STACK, CK_CC_INVOKE, CK_CC_EMIT, CK_N };
+static const char* const kContKindNames[CK_N] = { "new_section", "new_label", "new_named_label", "new_named_label_again", "bind", "section", "align", "embed", "embed_label",
+                                                  "embed_label_delta", "embed_data_array", "comment", "emit", "emit_with_label_operand", "emit_with_absolute_target",
+                                                  "compiler_new_reg", "compiler_new_stack", "compiler_invoke", "compiler_emit" };
+
+struct Cont {
+  const std::vector<uint8_t>* skip = nullptr;   // reference run: calls to omit
+  std::vector<uint8_t>* drop = nullptr;         // armed run: calls that were refused
+  CountingHandler* eh = nullptr; Rec* R = nullptr;
+  uint32_t idx = 0, refused = 0, handler_before = 0; uint64_t fired_before = 0;
+  int first_kind = -1;
+  bool last_lost = false;
+  bool skipped(uint32_t ci) const { return skip && ci < skip->size() && (*skip)[ci]; }
+  bool lost(uint32_t ci) const { return skipped(ci) || (drop && ci < drop->size() && (*drop)[ci]); }
+  uint32_t next() { last_lost = false; return idx++; }
+  void before() { handler_before = R->handler; fired_before = F.fired; eh->last = Error::kOk; }
+  void mark(uint32_t ci, int kind) {
+    R->handler = handler_before;    // delivered to the caller, who drops the call
+    if (drop) { if (drop->size() <= ci) drop->resize(ci + 1, 0); (*drop)[ci] = 1; }
+    if (!refused) first_kind = kind;
+    refused++; last_lost = true;
+    if (F.mode != M_COUNT) ST.cont_refused_by_kind[kind]++;
+  }
+  void after(uint32_t ci, int kind, Error e) {
+    if (e == Error::kOk) { R->calls++; if (refused && F.mode != M_COUNT) ST.cont_calls_after_refused++; return; }
+    if (e == Error::kOutOfMemory && F.fired != fired_before) { mark(ci, kind); return; }
+    R->rec(e);
+  }
+  void after_label(uint32_t ci, int kind, const Label& l) { after_valid(ci, kind, l.is_valid()); }
+  void after_valid(uint32_t ci, int kind, bool valid) {
+    if (valid) { R->calls++; if (refused && F.mode != M_COUNT) ST.cont_calls_after_refused++; return; }
+    // (an emitter reports the refusal to the ErrorHandler - Assembler - or not at all - Builder::new_label: the caller sees an invalid label)
+    if (F.fired != fired_before && (eh->last == Error::kOutOfMemory || eh->last == Error::kOk)) { mark(ci, kind); return; }
+    R->null_result();
+  }
+};
+
+#define CC(kind, cond, expr) do { uint32_t ci_ = K.next(); if (K.skipped(ci_)) K.last_lost = true; else if (cond) { K.before(); Error e_ = (expr); K.after(ci_, kind, e_); if (R.stopped()) return; } } while (0)
+#define CL(var, kind, cond, expr) do { uint32_t ci_ = K.next(); if (K.skipped(ci_)) K.last_lost = true; else if (cond) { K.before(); var = (expr); K.after_label(ci_, kind, var); if (R.stopped()) return; } } while (0)
+
+template<typename EM>
+static void cont_program(EM& e, CodeHolder& code, Rec& R, Result& out, Labels& L, Cont& K, uint64_t seed, uint64_t base) {
+  Rng r(seed * 137 + 3);
+  uint32_t nfill = 36 + uint32_t(r.below(24)), nnamed = 34 + uint32_t(r.below(20));
+  Section *s_data = nullptr, *s_ro = nullptr, *s_hot = nullptr;
+  CC(CK_NEW_SECTION, true, code.new_section(Out(s_data), ".data", SIZE_MAX, SectionFlags::kNone, 16, 2)); if (K.last_lost) s_data = nullptr;
+  CC(CK_NEW_SECTION, true, code.new_section(Out(s_ro), ".rodata", SIZE_MAX, SectionFlags::kReadOnly, 8, 1)); if (K.last_lost) s_ro = nullptr;
+  CC(CK_NEW_SECTION, true, code.new_section(Out(s_hot), ".hot", SIZE_MAX, SectionFlags::kExecutable | SectionFlags::kReadOnly, 32, -1)); if (K.last_lost) s_hot = nullptr;
+  GATE();
+
+  Label l_entry, l_loop, l_fwd, l_fn2, l_data, l_ro, l_late, l_main, l_inner;
+  CL(l_entry, CK_NEW_LABEL, true, e.new_label()); CL(l_loop, CK_NEW_LABEL, true, e.new_label()); CL(l_fwd, CK_NEW_LABEL, true, e.new_label());
+  CL(l_fn2, CK_NEW_LABEL, true, e.new_label()); CL(l_data, CK_NEW_LABEL, true, e.new_label()); CL(l_ro, CK_NEW_LABEL, true, e.new_label());
+  CL(l_late, CK_NEW_LABEL, true, e.new_label());
+  CL(l_main, CK_NEW_NAMED_LABEL, true, e.new_named_label("main"));
+  CL(l_inner, CK_NEW_NAMED_LABEL, l_main.is_valid(), e.new_named_label("inner", SIZE_MAX, LabelType::kLocal, l_main.id()));
+  GATE();
+  L.add("entry", l_entry); L.add("loop", l_loop); L.add("fwd", l_fwd); L.add("fn2", l_fn2); L.add("data", l_data);
+  L.add("ro", l_ro); L.add("late", l_late); L.add("main", l_main); L.add("inner", l_inner);
+  x86::Gp acc = x86::rax, cnt = x86::rcx, ptr = x86::rdx;
+
+  CC(CK_BIND, l_main.is_valid(), e.bind(l_main));
+  CC(CK_BIND, l_entry.is_valid(), e.bind(l_entry));
+  CC(CK_EMIT, true, e.mov(x86::eax, 1));
+  CC(CK_EMIT_LABEL_REF, l_data.is_valid(), e.lea(ptr, x86::ptr(l_data)));                     // label of another section, not yet bound
+  CC(CK_EMIT_LABEL_REF, l_ro.is_valid(), e.mov(cnt, x86::ptr(l_ro, 8, 8)));
+  CC(CK_BIND, l_inner.is_valid(), e.bind(l_inner));
+  CC(CK_BIND, l_loop.is_valid(), e.bind(l_loop));
+  CC(CK_EMIT, true, e.add(acc, cnt));
+  CC(CK_EMIT, true, e.dec(cnt));
+  CC(CK_EMIT_LABEL_REF, l_loop.is_valid(), e.jnz(l_loop));                                    // bound, backward
+  CC(CK_EMIT_LABEL_REF, l_fwd.is_valid(), e.jmp(l_fwd));                                      // forward: fixup
+  CC(CK_COMMENT, true, e.comment("between the loop and the filler"));
+  for (uint32_t i = 0; i < nfill; i++) {
+    CC(CK_EMIT, true, e.mov(x86::rax, imm(0x0101010101010101ull * (i & 0xFF) + i)));
+    CC(CK_EMIT, true, e.add(x86::dword_ptr(ptr, int32_t(i * 4)), x86::eax));
+    CC(CK_EMIT_LABEL_REF, (i % 5) == 0 && l_fwd.is_valid(), e.jz(l_fwd));
+    CC(CK_EMIT_LABEL_REF, (i % 9) == 0 && l_fn2.is_valid(), e.call(l_fn2));                   // cross-section
+    CC(CK_EMIT_LABEL_REF, (i % 11) == 0 && l_late.is_valid(), e.lea(acc, x86::ptr(l_late, int32_t(i))));
+    CC(CK_EMIT_ABS_TARGET, (i % 13) == 0, e.call(imm(0x0000123456789000ull + uint64_t(i % 3) * 0x100)));   // far targets: address table
+  }
+  CC(CK_BIND, l_fwd.is_valid(), e.bind(l_fwd));
+  CC(CK_EMIT_LABEL_REF, l_fn2.is_valid(), e.call(l_fn2));
+  CC(CK_EMIT_ABS_TARGET, true, e.call(imm(0x123456789ABCull)));
+  CC(CK_EMIT_ABS_TARGET, true, e.jmp(imm(0x00007FFF12345678ull)));
+  CC(CK_EMIT_ABS_TARGET, true, e.call(imm(base + 0x4000)));                                  // near: the slot can be dropped
+  CC(CK_EMIT_ABS_TARGET, true, e.call(imm(0x123456789ABCull)));                              // slot shared
+  CC(CK_EMIT_ABS_TARGET, true, e.mov(x86::eax, x86::dword_ptr(uint64_t(base + 0x2000))));   // [abs] in 64-bit mode: rip-relative after relocation
+  for (uint32_t i = 0; i < nnamed; i++) {
+    char nm[40]; snprintf(nm, sizeof nm, "named_label_%u_%llu", i, (ull)(seed & 7));
+    Label nl;
+    uint32_t first_ci = K.idx;
+    CL(nl, CK_NEW_NAMED_LABEL, true, e.new_named_label(nm));
+    bool first_lost = K.lost(first_ci);
+    if (first_lost && !K.skipped(first_ci)) {
+      // the name of a label whose creation was refused must not resolve to a label the holder does not have
+      Label q = code.label_by_name(nm);
+      if (q.id() != Globals::kInvalidId && !code.is_label_valid(q)) {
+        char b[200]; snprintf(b, sizeof b, "new_named_label(\"%s\") was refused, label_by_name() then returns id %u, label_count()=%zu;", nm, q.id(), code.label_count());
+        out.defects += b;
+      }
+    }
+    // ... and the caller makes the label again (own call: the reference makes it once)
+    CL(nl, CK_RETRY_NAMED_LABEL, first_lost, e.new_named_label(nm));
+    CC(CK_BIND, nl.is_valid(), e.bind(nl));
+    CC(CK_EMIT, true, e.nop());
+    if (i % 8 == 0) L.add(nm, nl);
+  }
+  CC(CK_EMIT, true, e.ret());
+
+  CC(CK_SECTION, s_hot != nullptr, e.section(s_hot));
+  if (s_hot && !K.last_lost) {
+    CC(CK_ALIGN, true, e.align(AlignMode::kCode, 32));
+    CC(CK_BIND, l_fn2.is_valid(), e.bind(l_fn2));
+    CC(CK_EMIT, true, e.xor_(x86::eax, x86::eax));
+    CC(CK_EMIT_LABEL_REF, l_late.is_valid(), e.lea(acc, x86::ptr(l_late)));
+    CC(CK_EMIT, true, e.ret());
+  }
+  static uint8_t blob[3000];
+  for (size_t i = 0; i < sizeof blob; i++) blob[i] = uint8_t(i * 7 + 3);
+  CC(CK_SECTION, s_ro != nullptr, e.section(s_ro));
+  if (s_ro && !K.last_lost) {
+    CC(CK_BIND, l_ro.is_valid(), e.bind(l_ro));
+    CC(CK_EMBED, true, e.embed(blob, 40));
+    static const uint32_t arr[4] = { 0x11111111u, 0x22222222u, 0x33333333u, 0x44444444u };
+    CC(CK_EMBED_DATA_ARRAY, true, e.embed_data_array(TypeId::kUInt32, arr, 4, 3));
+    CC(CK_EMBED, true, e.embed_uint64(0x8877665544332211ull, 2));
+  }
+  CC(CK_SECTION, s_data != nullptr, e.section(s_data));
+  if (s_data && !K.last_lost) {
+    CC(CK_ALIGN, true, e.align(AlignMode::kData, 16));
+    CC(CK_BIND, l_data.is_valid(), e.bind(l_data));
+    CC(CK_EMBED_LABEL, l_entry.is_valid(), e.embed_label(l_entry));                           // bound, another section
+    CC(CK_EMBED_LABEL, l_fn2.is_valid(), e.embed_label(l_fn2));
+    CC(CK_EMBED_LABEL, l_late.is_valid(), e.embed_label(l_late));                             // not yet bound: fixup
+    CC(CK_EMBED_LABEL_DELTA, l_fwd.is_valid() && l_entry.is_valid(), e.embed_label_delta(l_fwd, l_entry, 4));   // both bound in .text
+    CC(CK_EMBED_LABEL_DELTA, l_fn2.is_valid() && l_data.is_valid(), e.embed_label_delta(l_fn2, l_data, 8));    // cross-section: expression
+    CC(CK_EMBED_LABEL_DELTA, l_late.is_valid() && l_data.is_valid(), e.embed_label_delta(l_late, l_data, 4));  // unbound: expression
+    CC(CK_EMBED, true, e.embed(blob, sizeof blob));                                           // grows the section buffer
+    CC(CK_ALIGN, true, e.align(AlignMode::kZero, 64));
+    CC(CK_BIND, l_late.is_valid(), e.bind(l_late));
+    CC(CK_EMBED, true, e.embed_uint32(0xA1B2C3D4u, 3));
+  }
+}
+
+// flatten / resolve / relocate / copy of a continue-mode caller: an error these calls return without a request having been
+// refused inside them is an OUTPUT (the reference must return the same), not something that exempts the comparison.
+static void finish_cont(CodeHolder& code, Rec& R, Result& out, const Labels& L, uint64_t base) {
+  GATE();
+  uint64_t fired0 = F.fired;
+  const char* step = "flatten";
+  Error e = code.flatten();
+  CodeHolder::RelocationSummary sum {};
+  size_t sz = 0; std::string img;
+  if (e == Error::kOk) { step = "resolve_cross_section_fixups"; e = code.resolve_cross_section_fixups(); }
+  if (e == Error::kOk) { step = "relocate_to_base"; e = code.relocate_to_base(base, &sum); }
+  if (e == Error::kOk) {
+    step = "copy_flattened_data";
+    sz = code.code_size(); img.assign(sz + 16, '\xCC');
+    e = code.copy_flattened_data(&img[0], sz, CopySectionFlags::kPadSectionBuffer | CopySectionFlags::kPadTargetBuffer);
+  }
+  if (e != Error::kOk) {
+    if (F.fired != fired0) { R.rec(e); return; }
+    char b[96]; snprintf(b, sizeof b, "finish:%s=error%u;", step, unsigned(e)); out.main += b;
+    out.num("unresolved", code.unresolved_fixup_count());
+    return;
+  }
+  R.calls += 4;
+  out.put("image", img.data(), sz);
+  out.image = hexstr(img.data(), sz);
+  out.num("reduction", sum.code_size_reduction);
+  for (auto& p : L.all) {
+    if (code.is_label_valid(p.second) && code.is_label_bound(p.second)) out.num(p.first.c_str(), code.label_offset_from_base(p.second));
+    else out.main += p.first + "=unbound;";
+  }
+  for (size_t i = 0; i < code.section_count(); i++) {
+    Section* s = code.section_by_id(uint32_t(i));
+    // (an empty section is not output: a refused `call <far address>` may have created '.addrtab' before its entry was refused)
+    if (s->real_size() == 0 && s->buffer_size() == 0) continue;
+    char b[120]; snprintf(b, sizeof b, "sec%zu@%llu+%llu/%zu;", i, (ull)s->offset(), (ull)s->real_size(), s->buffer_size());
+    out.main += b;
+  }
+}
+
+// EMITTER: 0 = x86::Assembler, 1 = x86::Builder (finalize). STATIC: bytes of caller-provided arena memory for the holder.
+template<int EMITTER, int STATIC = 0>
+struct W1c : Workload {
+  alignas(64) uint8_t static_mem[STATIC ? STATIC : 1];
+  std::optional<CodeHolder> code;
+  std::optional<x86::Assembler> as;
+  std::optional<x86::Builder> cb;
+  CountingHandler eh;
+  std::vector<uint8_t> dropped;
+  static constexpr uint64_t kBase = 0x00007F1200010000ull;
+
+  void construct() override {
+    if (STATIC) { CtorScope cs("CodeHolder(static memory)"); code.emplace(Span<uint8_t>(static_mem, size_t(STATIC))); } else code.emplace();
+    if (EMITTER == 0) as.emplace(); else cb.emplace();
+  }
+
+  template<typename EM>
+  void whole(CodeHolder& C, EM& e, Rec& R, Result& out, const std::vector<uint8_t>* skip, std::vector<uint8_t>* drop) {
+    out.defect_kind = "refused-call-left-state-behind";
+    if (!C.is_initialized()) { E(C.init(Environment(Arch::kX64))); GATE(); }
+    C.set_error_handler(&eh);
+    E(C.attach(&e)); GATE();
+    Cont K; K.skip = skip; K.drop = drop; K.eh = &eh; K.R = &R;
+    if (drop) drop->clear();
+    Labels L;
+    cont_program(e, C, R, out, L, K, P.seed, kBase);
+    if (K.first_kind >= 0) out.ref_api = kContKindNames[K.first_kind];
+    CHK(); GATE();
+    if (K.refused && F.mode != M_COUNT) ST.cont_cases_with_refused_call++;
+    if constexpr (EMITTER != 0) { E(e.finalize()); GATE(); }
+    finish_cont(C, R, out, L, kBase);
+  }
+
+  void body(Rec& R, Result& out) override {
+    eh.R = &R;
+    if constexpr (EMITTER == 0) whole(*code, *as, R, out, nullptr, &dropped);
+    else whole(*code, *cb, R, out, nullptr, &dropped);
+    if (STATIC) note_static_arena(code->arena());
+  }
+  bool reference(Rec& R, Result& out) override {
+    eh.R = &R;
+    CodeHolder C;
+    std::vector<uint8_t> skip = dropped;
+    if constexpr (EMITTER == 0) { x86::Assembler e; whole(C, e, R, out, &skip, nullptr); }
+    else { x86::Builder e; whole(C, e, R, out, &skip, nullptr); }
+    out.aux.clear();
+    return true;
+  }
+  int recover(int strategy, Rec& R) override { return recover_holder(*code, strategy, R); }
+  void destroy() override { as.reset(); cb.reset(); code.reset(); }
+};
+
+// W3c - the same for a Compiler (x86-64): virtual registers, stack areas, invokes, labels and instructions whose creation is
+// refused are dropped together with what needs them; finalize() then runs with memory available. (Constants are not part of
+// it: a refused ConstPool::add() may keep the space it reserved - a bigger, correct pool.)
+#define CV(var, kind, cond, expr, validexpr) do { uint32_t ci_ = K.next(); if (K.skipped(ci_)) K.last_lost = true; else if (cond) { K.before(); var = (expr); K.after_valid(ci_, kind, (validexpr)); if (R.stopped()) return; } } while (0)
+
+static void cont_cc_program(x86::Compiler& e, Rec& R, Labels& L, Cont& K, uint64_t seed) {
+  Rng r(seed * 151 + 9);
+  FuncNode* fn = e.add_func(FuncSignature::build<int, int*, int>());
+  if (!fn) { R.null_result(); return; }
+  L.add("fc", fn->label());
+  x86::Gp p, n, sum;
+  CV(p, CK_CC_NEW_REG, true, e.new_gp_ptr("p"), p.is_valid());
+  CV(n, CK_CC_NEW_REG, true, e.new_gp32("n"), n.is_valid());
+  if (p.is_valid()) fn->set_arg(0, p);
+  if (n.is_valid()) fn->set_arg(1, n);
+  uint32_t nregs = 17 + uint32_t(r.below(4));          // more than there are registers: spill slots
+  std::vector<x86::Gp> v(nregs);
+  for (uint32_t i = 0; i < nregs; i++) { CV(v[i], CK_CC_NEW_REG, true, e.new_gp32("v%u", i), v[i].is_valid()); CC(CK_CC_EMIT, v[i].is_valid(), e.mov(v[i], int(i * 3 + 1))); }
+  x86::Mem stk;
+  bool have_stk = false;    // (a refused new_stack() returns `[0]`, a memory operand without base - not a 'none' operand)
+  CV(stk, CK_CC_NEW_STACK, true, e.new_stack(16, 16, "slot"), stk.has_base());
+  have_stk = stk.is_mem() && stk.has_base();
+  Label loop, done;
+  CL(loop, CK_NEW_LABEL, true, e.new_label()); CL(done, CK_NEW_LABEL, true, e.new_label());
+  bool looped = loop.is_valid() && done.is_valid() && n.is_valid();
+  CC(CK_CC_EMIT, looped, e.test(n, n));
+  CC(CK_CC_EMIT, looped, e.jz(done));
+  CC(CK_BIND, looped, e.bind(loop));
+  for (uint32_t i = 0; i < nregs; i++) CC(CK_CC_EMIT, v[i].is_valid() && p.is_valid(), e.add(v[i], x86::dword_ptr(p, int32_t(i * 4))));
+  { x86::Mem m = stk; m.set_size(4);
+    CC(CK_CC_EMIT, have_stk && v[0].is_valid(), e.mov(m, v[0]));
+    CC(CK_CC_EMIT, have_stk && v[1].is_valid(), e.add(v[1], m)); }
+  CC(CK_CC_EMIT, looped, e.dec(n));
+  CC(CK_CC_EMIT, looped, e.jnz(loop));
+  CC(CK_BIND, looped, e.bind(done));
+  // an invoke: ten arguments (registers, immediates; four of them on the stack)
+  {
+    InvokeNode* inv = nullptr;
+    uint32_t ci = K.next();
+    if (K.skipped(ci)) K.last_lost = true;
+    else if (v[2].is_valid() && v[3].is_valid()) {
+      K.before();
+      Error err = e.invoke(Out(inv), imm((void*)callee10), FuncSignature::build<int, int, int, int, int, int, int, int, int, int, int>());
+      K.after(ci, CK_CC_INVOKE, err);
+      if (R.stopped()) return;
+      if (err != Error::kOk) inv = nullptr;
+    }
+    if (inv) {
+      for (uint32_t i = 0; i < 10; i++) { if (i & 1) inv->set_arg(i, imm(int(i) * 11)); else inv->set_arg(i, v[2 + (i % 2)]); }
+      inv->set_ret(0, v[2]);
+    }
+  }
+  CV(sum, CK_CC_NEW_REG, true, e.new_gp32("sum"), sum.is_valid());
+  CC(CK_CC_EMIT, sum.is_valid(), e.xor_(sum, sum));
+  for (uint32_t i = 0; i < nregs; i++) CC(CK_CC_EMIT, sum.is_valid() && v[i].is_valid(), e.add(sum, v[i]));
+  CC(CK_CC_EMIT, sum.is_valid(), e.ret(sum));
+  { Error err = e.end_func(); if (R.rec(err) && R.stopped()) return; }
+}
+
+struct W3c : Workload {
+  std::optional<CodeHolder> code;
+  std::optional<x86::Compiler> cc;
+  CountingHandler eh;
+  std::vector<uint8_t> dropped;
+  static constexpr uint64_t kBase = 0x00007F3300010000ull;
+  void construct() override { code.emplace(); cc.emplace(); }
+  void whole(CodeHolder& C, x86::Compiler& e, Rec& R, Result& out, const std::vector<uint8_t>* skip, std::vector<uint8_t>* drop) {
+    if (!C.is_initialized()) { E(C.init(Environment(Arch::kX64))); GATE(); }
+    C.set_error_handler(&eh);
+    E(C.attach(&e)); GATE();
+    Cont K; K.skip = skip; K.drop = drop; K.eh = &eh; K.R = &R;
+    if (drop) drop->clear();
+    Labels L;
+    cont_cc_program(e, R, L, K, P.seed);
+    if (K.first_kind >= 0) out.ref_api = kContKindNames[K.first_kind];
+    CHK(); GATE();
+    if (K.refused && F.mode != M_COUNT) ST.cont_cases_with_refused_call++;
+    E(e.finalize()); GATE();
+    finish_cont(C, R, out, L, kBase);
+  }
+  void body(Rec& R, Result& out) override { eh.R = &R; whole(*code, *cc, R, out, nullptr, &dropped); }
+  bool reference(Rec& R, Result& out) override {
+    eh.R = &R;
+    CodeHolder C; x86::Compiler e;
+    std::vector<uint8_t> skip = dropped;
+    whole(C, e, R, out, &skip, nullptr);
+    out.aux.clear();
+    return true;
+  }
+  int recover(int strategy, Rec& R) override { return recover_holder(*code, strategy, R); }
+  void destroy() override { cc.reset(); code.reset(); }
 };
 
 // =========================================================================================================
@@ -2132,7 +2905,7 @@ static uint64_t case_rng_seed(uint64_t seed) {
 }
 
 struct W9 : Workload {
-  static constexpr int kJA = 6, kRT = 2, kEM = 6;
+  static constexpr int kJA = 7, kRT = 2, kEM = 6;
   std::optional<JitAllocator> ja[kJA];
   std::optional<JitRuntime> rt[kRT];
   std::optional<CodeHolder> code[kEM];
@@ -2155,13 +2928,14 @@ struct W9 : Workload {
       case 4: p.options = JitAllocatorOptions::kDisableInitialPadding | JitAllocatorOptions::kUseMultiplePools; break;
       case 5: p.options = JitAllocatorOptions::kUseDualMapping | JitAllocatorOptions::kUseMultiplePools | JitAllocatorOptions::kImmediateRelease | JitAllocatorOptions::kDisableInitialPadding;
               p.block_size = 64 * 1024; p.granularity = 256; break;
+      case 6: p.options = JitAllocatorOptions::kUseLargePages | JitAllocatorOptions::kAlignBlockSizeToLargePage | JitAllocatorOptions::kFillUnusedMemory; break;
       default: break;
     }
     return p;
   }
   static const char* ja_name(int j) {
     static const char* const n[kJA] = { "JitAllocator(nullptr)", "JitAllocator(dual)", "JitAllocator(pools|fill|immediate)", "JitAllocator(dual|fill|pattern,128K/128)",
-                                        "JitAllocator(nopadding|pools)", "JitAllocator(dual|pools|immediate|nopadding,64K/256)" };
+                                        "JitAllocator(nopadding|pools)", "JitAllocator(dual|pools|immediate|nopadding,64K/256)", "JitAllocator(largepages|align|fill)" };
     return n[j];
   }
   static const char* rt_name(int j) { return j ? "JitRuntime(dual|fill)" : "JitRuntime(nullptr)"; }
@@ -2533,6 +3307,7 @@ static std::string pattern_str() {
 static const char* mode_name(int m);
 static std::string g_viol_images[2];
 static const char* g_viol_api = nullptr;
+static bool g_viol_api_is_first_kind = false;   // the api names the FIRST refused call of the case (exact for single-failure cases only)
 static void viol(const char* kind, const std::string& what) {
   bool with_images = !g_viol_images[0].empty();
   std::string api = g_viol_api ? g_viol_api : "";
@@ -2548,6 +3323,7 @@ static void viol(const char* kind, const std::string& what) {
   for (int j = 0; j < kSiteDepth; j++) { snprintf(b, sizeof b, "%s%llu", j ? "," : "", (ull)(v.site[j] ? v.site[j] - g_exe_base : 0)); o += b; }
   o += "]";
   if (!v.api.empty()) o += ",\"api\":" + jstr(v.api);
+  if (!v.api.empty() && g_viol_api_is_first_kind) o += ",\"api_first_kind\":1";
   if (!g_viol_images[0].empty() && g_viol_images[0].size() + g_viol_images[1].size() < 60000) o += ",\"got_main\":" + jstr(g_viol_images[0]) + ",\"clean_main\":" + jstr(g_viol_images[1]);
   o += "}";
   if (SH->viol_len + o.size() + 2 < sizeof SH->viol_buf) {
@@ -2598,8 +3374,13 @@ static void judge(const Deferred& d) {
   if (d.has_ref) {
     // continue mode: refused emit calls are expected; anything else that reported exempts the comparison
     if (d.Rf.reported()) viol("harness-reference-run-failed", "the failure-free reference with the refused calls omitted reported an error");
-    else if (!R1.reported() && d.o1.main != d.ref.main)
+    else if (!R1.reported() && d.o1.main != d.ref.main) {
+      g_viol_api = d.o1.ref_api; g_viol_api_is_first_kind = true;
+      if (!d.o1.image.empty() && !d.ref.image.empty()) { g_viol_images[0] = d.o1.main; g_viol_images[1] = d.ref.main; }   // (the Python side may accept another spill-slot placement)
       viol("wrong-code-after-refused-call", "the refused calls were skipped, every other call returned kOk, but the output differs from a failure-free run that omits exactly those calls: " + first_diff(d.o1.main, d.ref.main));
+      g_viol_api = nullptr; g_viol_api_is_first_kind = false;
+      g_viol_images[0].clear(); g_viol_images[1].clear();
+    }
     else if (!R1.reported()) ST.continue_ok++;
   }
   else if (!R1.reported() && d.o1.main != g_clean.main)
@@ -2608,7 +3389,15 @@ static void judge(const Deferred& d) {
     viol("silent-wrong-output", "no call reported an error but the output differs from the failure-free run: " + first_diff(d.o1.main, g_clean.main));
     g_viol_images[0].clear(); g_viol_images[1].clear();
   }
-  if (!d.o1.defects.empty()) viol(d.o1.defect_kind, "with the objects still alive: " + d.o1.defects.substr(0, 400));
+  if (R1.has_event) {
+    if (R1.first_event_late) ST.first_report_after_the_refusing_call_returned++;
+    if (R1.first_event_late && R1.first_event_code != uint32_t(Error::kOutOfMemory) && R1.first_event_code != uint32_t(Error::kOk)) {
+      char b[300]; snprintf(b, sizeof b, "every call up to and including the one in which the request was refused returned kOk; %llu recorded call(s) later the caller was told error %u (%s), not kOutOfMemory: "
+                            "the refusing call neither reported the failure nor completed its work", (ull)R1.first_event_calls_since_refusal, R1.first_event_code, DebugUtils::error_as_string(Error(R1.first_event_code)));
+      viol("failure-not-reported-by-the-failing-call", b);
+    }
+  }
+  if (!d.o1.defects.empty()) { g_viol_api = d.o1.ref_api; g_viol_api_is_first_kind = d.o1.ref_api != nullptr; viol(d.o1.defect_kind, "with the objects still alive: " + d.o1.defects.substr(0, 400)); g_viol_api = nullptr; g_viol_api_is_first_kind = false; }
   if (!d.o2.defects.empty()) viol((std::string(d.o2.defect_kind) + "-in-retry").c_str(), "in the retry with memory available: " + d.o2.defects.substr(0, 400));
   for (auto& x : d.o1.api_defects) { g_viol_api = x.api; viol(x.kind, "with the objects still alive: " + x.what.substr(0, 500)); g_viol_api = nullptr; }
   for (auto& x : d.o2.api_defects) { g_viol_api = x.api; viol((std::string(x.kind) + "-in-retry").c_str(), "in the retry with memory available: " + x.what.substr(0, 500)); g_viol_api = nullptr; }
@@ -2632,6 +3421,9 @@ static bool run_case(Workload& W, int style_stop, int strategy) {
   for (int c = 0; c < CL_N; c++) F.seen[c] = 0;
   F.fired = 0; memset(F.first_site, 0, sizeof F.first_site);
   F.twin_site = nullptr; F.twin_left = 0;
+  vm_case_begin();
+  g_call_seq = 0; F.last_fired_seq = 0; F.fired_in_ctor = false;
+  uint64_t release_checks0 = g_vm_release_checks;
   Rec R1; R1.stop = style_stop != 0;
   Result o1;
   // phase 1
@@ -2681,6 +3473,16 @@ static bool run_case(Workload& W, int style_stop, int strategy) {
     // phase 3
     W.destroy();
   }
+  if (F.mode != M_COUNT) ST.vm_releases_checked += g_vm_release_checks - release_checks0;
+  if (g_vm_defects_len) {
+    if (F.mode == M_COUNT) { fprintf(stderr, "HARNESS: failure-free run releases virtual memory / descriptors wrongly: %s\n", g_vm_defects); ok = false; }
+    else {
+      // keyed by the call chain of the wrong release call (not of the first refused request)
+      uintptr_t keep[kSiteDepth]; memcpy(keep, F.first_site, sizeof keep); memcpy(F.first_site, g_vm_defect_site, sizeof keep);
+      viol("wrong-release-call", std::string("a mapping / descriptor / name asmjit obtained was released wrongly: ") + g_vm_defects);
+      memcpy(F.first_site, keep, sizeof keep);
+    }
+  }
   Balance b1 = balance_now();
   if (b1.heap != b0.heap || b1.maps != b0.maps || b1.fds != b0.fds || b1.names != b0.names) {
     char b[240]; snprintf(b, sizeof b, "after destroying every object: heap blocks %+lld, mappings %+lld, descriptors %+lld, shm/tmp names %+lld versus before the case",
@@ -2722,6 +3524,17 @@ static void emit_json(const Args& args, int cls, int mode, int rc_note) {
       o += "}";
     }
     o += "}";
+  }
+  snprintf(b, sizeof b, ",\"vm_releases_checked\":%llu,\"reinit_compiler_rounds_after_failure\":%llu,\"first_report_after_the_refusing_call_returned\":%llu,\"hugetlb_mmaps\":%llu,\"static_arena_cases\":%llu,\"static_arena_cases_grown\":%llu", (ull)ST.vm_releases_checked, (ull)ST.reinit_compiler_rounds_after_failure, (ull)ST.first_report_after_the_refusing_call_returned, (ull)ST.hugetlb_mmaps, (ull)ST.static_arena_cases, (ull)ST.static_arena_cases_grown); o += b;
+  if (ST.cont_cases_with_refused_call) {
+    snprintf(b, sizeof b, ",\"cont\":{\"cases_with_refused_call\":%llu,\"calls_after_refused\":%llu,\"refused_by_kind\":{", (ull)ST.cont_cases_with_refused_call, (ull)ST.cont_calls_after_refused); o += b;
+    bool f1 = true;
+    for (int i = 0; i < CK_N; i++) if (ST.cont_refused_by_kind[i]) { snprintf(b, sizeof b, "%s\"%s\":%llu", f1 ? "" : ",", kContKindNames[i], (ull)ST.cont_refused_by_kind[i]); o += b; f1 = false; }
+    o += "}}";
+  }
+  if (ST.cp_adds) {
+    snprintf(b, sizeof b, ",\"constpool\":{\"adds\":%llu,\"refused\":%llu,\"refused_with_padding_pending\":%llu,\"refused_with_gaps_registered\":%llu,\"adds_after_refused\":%llu,\"retries_of_refused\":%llu,\"checks\":%llu,\"pool_resets\":%llu}",
+             (ull)ST.cp_adds, (ull)ST.cp_refused, (ull)ST.cp_refused_with_padding_pending, (ull)ST.cp_refused_with_gaps_registered, (ull)ST.cp_adds_after_refused, (ull)ST.cp_retries_of_refused, (ull)ST.cp_checks, (ull)ST.cp_pool_resets); o += b;
   }
   snprintf(b, sizeof b, ",\"ctor_cases\":[%llu,%llu,%llu],\"ctor_cases_first_request\":[%llu,%llu,%llu]", (ull)ST.ctor_cases[0], (ull)ST.ctor_cases[1], (ull)ST.ctor_cases[2],
            (ull)ST.ctor_cases_first_request[0], (ull)ST.ctor_cases_first_request[1], (ull)ST.ctor_cases_first_request[2]); o += b;
@@ -2768,6 +3581,7 @@ static void warm_up(bool dual) {
   (void)CpuInfo::host();
   (void)VirtMem::info();
   (void)VirtMem::hardened_runtime_info();
+  (void)VirtMem::large_page_size();
   (void)callee_for_jit(1);
   if (dual) {   // anonymous-memory strategy detection (shm_open vs. TMPDIR) is cached process-wide as well
     VirtMem::DualMapping dm {};
@@ -2778,6 +3592,7 @@ static void warm_up(bool dual) {
 int main(int argc, char** argv) {
   Args args(argc, argv);
   init_stack_bounds();
+  { long ps = sysconf(_SC_PAGESIZE); if (ps > 0) g_page = size_t(ps); }
   g_debug = args.has("debug");
   { Dl_info di; if (dladdr((void*)&main, &di) && di.dli_fbase) g_exe_base = uintptr_t(di.dli_fbase); }
   g_exe_base_early = g_exe_base;
@@ -2793,6 +3608,7 @@ int main(int argc, char** argv) {
   int mode = mode_s == "count" ? M_COUNT : mode_s == "single" ? M_SINGLE : mode_s == "sticky" ? M_STICKY : mode_s == "twin" ? M_TWIN : M_PATTERN;
   uint64_t seed = args.u64("seed", 1);
   F.memfd_enosys = g_wname.find("nomemfd") != std::string::npos;
+  g_strip_hugetlb = g_wname.find("large") != std::string::npos && g_wname.find("largefb") == std::string::npos;
   if (!args.has("cold")) warm_up(F.memfd_enosys);
 
   std::unique_ptr<Workload> W(make_workload(g_wname));
@@ -2908,11 +3724,18 @@ static Workload* make_workload(const std::string& n) {
   if (n == "W5") return new W5(1024);
   if (n == "W5big") return new W5(32 * 1024);
   if (n == "W5s") return new W5s();
+  if (n == "W5sst") return new W5sT<1>();
+  if (n == "W5c") return new W5c(1024);
   if (n == "W6") return new W6();
   if (n == "W1x64") return new W1x86<1>();
   if (n == "W1x86") return new W1x86<0>();
   if (n == "W1a64") return new W1a64();
   if (n == "W1r") return new W1r();
+  if (n == "W1rst") return new W1r(1024);
+  if (n == "W1cst") return new W1c<0, 2048>();
+  if (n == "W1c") return new W1c<0>();
+  if (n == "W2c") return new W1c<1>();
+  if (n == "W3c") return new W3c();
   if (n == "W2fin") return new W2x86<0>();
   if (n == "W2ser") return new W2x86<1>();
   if (n == "W3x64") return new W3<0, 0>();
@@ -2925,6 +3748,9 @@ static Workload* make_workload(const std::string& n) {
   if (n == "W4multi") return new W4<uint32_t(JitAllocatorOptions::kUseMultiplePools | JitAllocatorOptions::kFillUnusedMemory | JitAllocatorOptions::kImmediateRelease)>();
   if (n == "W4dualfill") return new W4<uint32_t(JitAllocatorOptions::kUseDualMapping | JitAllocatorOptions::kFillUnusedMemory | JitAllocatorOptions::kUseMultiplePools)>();
   if (n == "W4nomemfd") return new W4<uint32_t(JitAllocatorOptions::kUseDualMapping)>();
+  if (n == "W4large") return new W4<uint32_t(JitAllocatorOptions::kUseLargePages | JitAllocatorOptions::kAlignBlockSizeToLargePage)>();
+  if (n == "W4largefill") return new W4<uint32_t(JitAllocatorOptions::kUseLargePages | JitAllocatorOptions::kAlignBlockSizeToLargePage | JitAllocatorOptions::kFillUnusedMemory | JitAllocatorOptions::kImmediateRelease)>();
+  if (n == "W4largefb") return new W4<uint32_t(JitAllocatorOptions::kUseLargePages | JitAllocatorOptions::kAlignBlockSizeToLargePage)>();
   if (n == "W4far") return new W4<0, 1>();
   if (n == "W4fardual") return new W4<uint32_t(JitAllocatorOptions::kUseDualMapping | JitAllocatorOptions::kImmediateRelease), 1>();
   if (n == "W7asm") return new W7<0>();
